@@ -5,6 +5,8 @@
 -/
 import AeicProofs.Lemmas.StoreMain
 import AeicProofs.Lemmas.MergeProto
+import AeicModel.MergeProg
+import AeicModel.Generated.MergeProg
 
 namespace C10
 open Aeic.Store
@@ -168,5 +170,43 @@ example :
     (merge ⟨top, none⟩ ["a", "b", "c"] (some 2)).2 = .ok false ∧
     (merge ⟨top, none⟩ ["a", "b", "c"] none).2 = .ok true := by
   constructor <;> rfl
+
+/-! ## Source tie: the effect program of `TrajectoryStore.merge`, regenerated from `trajectories/store.py` on every run
+    (`Aeic.Gen.mergeProg`; language: `AeicModel/MergeProg.lean`, translator: `harness/common/mergeprog.py`) -/
+
+open Aeic.MergeProg in
+/-- the shape of the source, decided by the kernel on the generated program: every refusal comes before the first effect; only the
+    creation of the empty output directory is outside the `try`; each move of an input is recorded for undoing after it happened;
+    the file that announces a complete store is written by the last effect; and the handler catches every kind of interruption,
+    removes every file the body may have created, moves the recorded inputs back, removes the directory and re-raises -/
+theorem src_merge_program_well_formed : wellFormed Aeic.Gen.mergeProg = true := by decide
+
+open Aeic.MergeProg in
+/-- **the effects of the source, in source order, ARE the step list of the protocol model** — for every list of validated
+    inputs; so `refused_merge_retriable`, `interrupted_merge_restores`, `killed_merge_loses_nothing` and
+    `metadata_implies_complete`, proved about `mergeSteps`, speak about the order in which the source touches the file system -/
+theorem src_merge_steps_are_model (fs : List (String × StoreFile)) :
+    progSteps Aeic.Gen.mergeProg fs = mergeSteps fs := by
+  simp [progSteps, Aeic.Gen.mergeProg, effSteps, mergeSteps]
+
+open Aeic.MergeProg in
+/-- for ANY well-formed effect program the last step is the metadata file: a directory that announces itself complete was
+    written after every other effect (a statement about the language, independent of today's program) -/
+theorem well_formed_ends_with_metadata (p : Prog) (h : metadataLast p = true) (fs : List (String × StoreFile)) :
+    (progSteps p fs).getLast? = some (.writeMetadata (mdOf fs)) := by
+  obtain ⟨pre, body, hd⟩ := p
+  unfold metadataLast at h
+  unfold progSteps
+  simp only at h ⊢
+  cases hb : body.getLast? with
+  | none => simp [hb] at h
+  | some e =>
+    obtain ⟨init, hinit⟩ : ∃ init, body = init ++ [e] := by
+      obtain ⟨ys, hys⟩ := List.getLast?_eq_some_iff.mp hb; exact ⟨ys, hys⟩
+    subst hinit
+    rw [hb] at h
+    have he : effSteps fs e = [.writeMetadata (mdOf fs)] := by
+      cases e <;> simp_all [effSteps, isMetadataWrite]
+    simp [List.flatMap_append, he]
 
 end C10
